@@ -1,2 +1,7 @@
+# setup: regenerate theories/Gen from /repo, then a full .vo build of the whole development
 all:
-	@true
+	PYTHONPATH=/verif/tools /venv/bin/python -c "import common,sys; ok,log,g=common.build(None); print(log[-3000:]); sys.exit(0 if ok else 1)"
+clean:
+	-$(MAKE) -f Makefile.coq clean
+	rm -rf .work Makefile.coq Makefile.coq.conf _CoqProject
+.PHONY: all clean
